@@ -128,7 +128,13 @@ pub fn run_case(case: &Case) -> (Vec<(String, String)>, Info) {
     }
     // the placeholders suffice to recompute the commitment (in memory, as served)
     if !full.transactions.is_empty() {
-        let root = MerkleTree::generate(&lite.transactions).map(|t| t.get_root_hash());
+        let root = match catch(|| MerkleTree::generate(&lite.transactions).map(|t| t.get_root_hash())) {
+            Outcome::Returned(r) => r,
+            Outcome::Panicked(site, msg) => {
+                v.push((format!("C18|commitment_not_recomputable|panic|site={site}|in_memory"), format!("recomputing the merkle root from the lite block's transactions panicked at {site}: {msg}")));
+                Some(full.merkle_root)
+            }
+        };
         if root != Some(full.merkle_root) {
             v.push((
                 format!("C18|commitment_not_recomputable|{merged_s}|in_memory"),
@@ -164,7 +170,13 @@ pub fn run_case(case: &Case) -> (Vec<(String, String)>, Info) {
                     }
                 }
                 if !full.transactions.is_empty() {
-                    let root = MerkleTree::generate(&l2.transactions).map(|t| t.get_root_hash());
+                    let root = match catch(|| MerkleTree::generate(&l2.transactions).map(|t| t.get_root_hash())) {
+                        Outcome::Returned(r) => r,
+                        Outcome::Panicked(site, msg) => {
+                            v.push((format!("C18|commitment_not_recomputable|panic|site={site}|after_wire"), format!("after a wire round trip, recomputing the merkle root from the lite block's transactions panicked at {site}: {msg}")));
+                            Some(full.merkle_root)
+                        }
+                    };
                     if root != Some(full.merkle_root) {
                         let ph = if info.placeholders > 0 { merged_s } else { "no_placeholders" };
                         v.push((
